@@ -31,20 +31,20 @@ def make_jobs(ctx):
 
 META = dict(
     level="model_checking",
-    trusted_base=["CBMC 6.11 (bounds checks on exact-size objects are the 'never reads past the guest path / never writes past its buffers' clause), minisat",
+    trusted_base=["library contracts of strlen (length of the NUL-terminated directory string) and memcpy (n readable / n writable bytes, copies them) in W.resolvePath.unbounded; z3 4.8.12", "CBMC 6.11 (bounds checks on exact-size objects are the 'never reads past the guest path / never writes past its buffers' clause), minisat",
                   "env/posix_model.h incl. the ghost directory stream (telldir cookie of entry i = i+1; seekdir/readdir consistent with it)",
                   "spec/wasi_spec.h: spec_resolve, dirent layout (d_next u64 @0, d_ino u64 @8, d_namlen u32 @16, d_type u8 @20, name after 24 bytes)",
                   "'every entry exactly once across calls' = the per-call contract (delivery from the cookie position onward) + induction over the cookie (paper)"],
-    assumptions=["PATH_MAX in {16, 24} (64 in the thorough tier): parametric-bounded", "<= 3 directory entries, names <= 3 bytes"],
+    assumptions=["path operations: PATH_MAX in {16, 24} (32 in the thorough tier): parametric-bounded; resolvePath itself: real PATH_MAX, all lengths (z3)", "<= 3 directory entries, names <= 3 bytes"],
     explanation="resolvePath for all directory/guest-path strings, every path-taking entry point (resolved path, exactly the corresponding host call, errno), "
                 "fd_readdir against a ghost directory stream for all buffer sizes and cookies.",
 )
 
 CLAIM = dict(
     category="model_checking",
-    text="Bounded (PATH_MAX re-defined to 16/24, <= 3 directory entries) but complete-within-bounds CBMC checks, all unwinding assertions discharged. Contracts on resolvePath (accept/reject exactly by fit, NUL termination, no read past the unterminated guest path, no write past the buffer) for "
+    text="resolvePath is discharged for the host's real PATH_MAX (4096) and directory / guest-path strings of EVERY length (strlen and memcpy enter through library contracts; ghost position in the result buffer). The remaining checks are bounded (PATH_MAX re-defined to 16/24, <= 3 directory entries) but complete within bounds, all unwinding assertions discharged: contracts on resolvePath (accept/reject exactly by fit, NUL termination, no read past the unterminated guest path, no write past the buffer) for "
          "all strings at PATH_MAX 16/24, on mkdir/rmdir/unlink/rename/symlink/readlink/stat entry points (operation, resolved arguments, mode, errno), and "
          "on fd_readdir (record layout, truncation, resumption from any returned cookie, restart at cookie 0) against a ghost directory stream.",
-    note="PATH_MAX is re-defined small (code uniform in it); directory stream <= 3 entries; POSIX is a recording model; completeness across calls by induction over the cookie.",
+    note="Only resolvePath is unbounded; for the path operations PATH_MAX is re-defined small (code uniform in it); directory stream <= 3 entries; POSIX is a recording model; completeness across calls by induction over the cookie.",
     technique="CBMC assume/assert contracts on wasi.c against a recording POSIX model with a ghost directory stream",
 )
